@@ -1,6 +1,13 @@
 //! C28 harness: the server never deadlocks — seeded stress of the REAL in-process server with a watchdog.
-//!   c28 search --seed S --n ROUNDS --dir D [--watchdog-ms T] [--files K]
+//!   c28 search --seed S --n ROUNDS --dir D [--watchdog-ms T] [--files K] [--trace-out FILE]
+//!        --trace-out: record every lock acquisition / release per task (hook verif_lock) and write them as JSON
+//!        lines [task, event, lock] in global order (the check compares them with the regenerated lock programs)
 //!        -> JSON lines {"signature","what","case"} for a hang + final {"summary":{..}}
+//!   c28 workers --workers W --dir D [--watchdog-ms T]
+//!        start the server on a runtime with W worker threads and a client WITHOUT dynamic watched-files
+//!        registration (the server then watches the workspace itself); after initialization a canary request
+//!        must be answered.  A task that blocks a worker thread forever (not a lock: a blocking call inside
+//!        an async task) shows up as a hang when W = 1.   -> JSON line {"signature":"worker-parked",..} or {"summary":..}
 //!   c28 one --case-json '{"burst":[..]}' --dir D [--repeat R] [--watchdog-ms T]
 //! A round = a burst of notifications and requests sent back to back (so that their handler tasks run
 //! concurrently on the multi-thread runtime), followed by canary requests that need both the analysis
@@ -242,6 +249,10 @@ fn main() {
         "search" => {
             let mut rng = Rng::new(args.u64("seed", 1) ^ 0xC28);
             let n = args.usize("n", 40);
+            let trace_out = args.str("trace-out", "");
+            if !trace_out.is_empty() {
+                emmylua_ls::verif_lock_trace_enable(true);
+            }
             let mut cx = start(&args);
             let mut dist: BTreeMap<String, u64> = BTreeMap::new();
             let mut msgs = 0u64;
@@ -290,7 +301,18 @@ fn main() {
                     report(&mut out, &[], &missing, rounds);
                 }
             }
-            writeln!(out, "{}", json!({"summary": {"rounds": rounds, "corpus_rounds": ncorpus, "messages": msgs, "distinct_nontrivial": distinct.len(), "ops": dist,
+            let mut trace_events = 0usize;
+            if !trace_out.is_empty() {
+                emmylua_ls::verif_lock_trace_enable(false);
+                let ev = emmylua_ls::verif_lock_trace_take();
+                trace_events = ev.len();
+                let mut f = std::io::BufWriter::new(std::fs::File::create(&trace_out).expect("trace-out"));
+                for (task, kind, lock) in ev {
+                    writeln!(f, "{}", json!([task, kind, lock])).unwrap();
+                }
+                f.flush().unwrap();
+            }
+            writeln!(out, "{}", json!({"summary": {"rounds": rounds, "corpus_rounds": ncorpus, "lock_trace_events": trace_events, "messages": msgs, "distinct_nontrivial": distinct.len(), "ops": dist,
                 "server_notifications": cx.srv.notifications, "hung": hung}})).unwrap();
             let _ = std::fs::remove_dir_all(&cx.root);
             out.flush().unwrap();
@@ -316,8 +338,64 @@ fn main() {
             out.flush().unwrap();
             std::process::exit(0);
         }
+        "workers" => {
+            use emmylua_ls::{CmdArgs, Parser, verif_serve};
+            use lsp_server::{Connection, Message, Request, Response};
+            let w = args.usize("workers", 1);
+            let dir = PathBuf::from(args.str("dir", std::env::temp_dir().to_str().unwrap()));
+            unsafe { std::env::set_var("VH_TMP", &dir) };
+            let root = fresh_dir("c28w");
+            for f in 0..4 {
+                std::fs::write(root.join(format!("m{}.lua", f)), text_of(f, 0)).unwrap();
+            }
+            let (server, client) = Connection::memory();
+            std::thread::Builder::new().name("vh-ls-server".into()).stack_size(64 << 20).spawn(move || {
+                let rt = tokio::runtime::Builder::new_multi_thread().worker_threads(w).enable_all().thread_stack_size(32 << 20).build().unwrap();
+                let _ = rt.block_on(async move { verif_serve(server, CmdArgs::parse_from(["emmylua_ls"])).await });
+                std::mem::forget(rt);
+            }).unwrap();
+            let root_uri = path_to_uri(&root);
+            let send = |m: Message| { let _ = client.sender.send(m); };
+            send(Message::Request(Request { id: RequestId::from(0), method: "initialize".into(), params: json!({"processId": null, "rootUri": root_uri,
+                "capabilities": {"workspace": {"configuration": false}, "textDocument": {}}, "workspaceFolders": [{"uri": root_uri, "name": "w"}]}) }));
+            let wait = |id: i32, d: Duration| -> bool {
+                let t0 = Instant::now();
+                while t0.elapsed() < d {
+                    match client.receiver.recv_timeout(Duration::from_millis(50)) {
+                        Ok(Message::Response(r)) if r.id == RequestId::from(id) => return true,
+                        Ok(Message::Request(r)) => { let _ = client.sender.send(Message::Response(Response::new_ok(r.id, Value::Null))); }
+                        _ => {}
+                    }
+                }
+                false
+            };
+            let init_ok = wait(0, Duration::from_secs(60));
+            send(Message::Notification(lsp_server::Notification { method: "initialized".into(), params: json!({}) }));
+            // wait for the background initialization (it ends by registering the file watcher)
+            std::thread::sleep(Duration::from_millis(args.u64("init-ms", 4000)));
+            let mut answered = 0;
+            for (i, m) in ["verif/task", "textDocument/hover", "textDocument/documentSymbol"].iter().enumerate() {
+                let params = match *m {
+                    "verif/task" => json!({"mode": "ok", "ms": 0}),
+                    "textDocument/hover" => json!({"textDocument": {"uri": format!("{}/m0.lua", root_uri)}, "position": {"line": 1, "character": 7}}),
+                    _ => json!({"textDocument": {"uri": format!("{}/m0.lua", root_uri)}}),
+                };
+                send(Message::Request(Request { id: RequestId::from(10 + i as i32), method: m.to_string(), params }));
+                if wait(10 + i as i32, watchdog) {
+                    answered += 1;
+                }
+            }
+            if init_ok && answered < 3 {
+                writeln!(out, "{}", json!({"signature": "worker-parked", "what": format!("with {} runtime worker thread(s) and a server-side file watcher, only {} of 3 requests sent after initialization were answered within the watchdog: a spawned task blocks a worker thread", w, answered),
+                    "case": {"workers": w, "answered": answered}})).unwrap();
+            }
+            writeln!(out, "{}", json!({"summary": {"workers": w, "initialize_answered": init_ok, "answered": answered}})).unwrap();
+            let _ = std::fs::remove_dir_all(&root);
+            out.flush().unwrap();
+            std::process::exit(0);
+        }
         _ => {
-            eprintln!("usage: c28 search|one ...");
+            eprintln!("usage: c28 search|one|workers ...");
             std::process::exit(2);
         }
     }
